@@ -674,6 +674,39 @@ fn run(name: &str, j: &J) -> Result<bool, String> {
             println!("  query: {}", q);
             Ok(ok)
         }
+        // C06: CASE WHEN c THEN a ELSE b with a nullable condition: a NULL condition takes the ELSE branch
+        "c06_case_null_condition" => {
+            let dt = DataType::structured([("x", DataType::optional(DataType::integer_interval(1, 10)))]);
+            let e = Expr::case(Expr::gt(Expr::col("x"), Expr::val(0)), Expr::val(1), Expr::val(2));
+            let img = e.super_image(&dt).map_err(|e| e.to_string())?;
+            println!("  type of {} over {}: {}; with x NULL the SQL value is 2 (ELSE branch)", e, dt, img);
+            Ok(img.contains(&Value::integer(2)) || img.contains(&Value::some(Value::integer(2))))
+        }
+        // C03: an infinite epsilon gives zero noise; the returned event must not claim that nothing was spent
+        "c03_infinite_epsilon" => {
+            use qrlew::{hierarchy::Hierarchy, expr::Identifier, sql::parse, differential_privacy::DpParameters};
+            use std::sync::Arc;
+            let t: Relation = Relation::table().name("t").schema(vec![("id", DataType::integer_interval(0, 100)), ("a", DataType::float_interval(0., 10.))].into_iter().collect::<Schema>()).size(100).build();
+            let relations: Hierarchy<Arc<Relation>> = vec![t].iter().map(|t| (Identifier::from(t.name()), Arc::new(t.clone()))).collect();
+            let eps = match j["epsilon"].as_str() { Some("inf") => f64::INFINITY, _ => j["epsilon"].as_f64().unwrap_or(1.0) };
+            let relation = Relation::try_from(parse("SELECT sum(a) AS s FROM t").map_err(|e| e.to_string())?.with(&relations)).map_err(|e| e.to_string())?;
+            let rw = relation.rewrite_with_differential_privacy(&relations, None, PrivacyUnit::from(vec![("t", vec![], "id")]), DpParameters::from_epsilon_delta(eps, 1e-3)).map_err(|e| e.to_string())?;
+            println!("  epsilon = {}: returned event {}", eps, rw.dp_event());
+            Ok(!rw.dp_event().is_no_op())
+        }
+        // C12: the converted value must lie in the converted type (union -> union lifting)
+        "c12_union_value_in_image" => {
+            use qrlew::data_type::injection::{self, Injection as _};
+            use qrlew::data_type::{Union, value};
+            let dom = Union::from_field("0", DataType::integer_interval(0, 10));
+            let co = Union::from_field("0", DataType::float());
+            let inj = injection::From(dom.clone()).into(co.clone()).map_err(|e| e.to_string())?;
+            let img = inj.super_image(&dom).map_err(|e| e.to_string())?;
+            let v = value::Union::from_field("0", Value::integer(1));
+            let w = inj.value(&v).map_err(|e| e.to_string())?;
+            println!("  {} into {}: image of the type {}, value {} converts to {}", dom, co, img, v, w);
+            Ok(img.contains(&w))
+        }
         _ => Err(format!("unknown replay `{}`", name)),
     }
 }
